@@ -572,10 +572,52 @@ def only_special_params_mismatch(rec):
     return bool(mism) and all((p["f"], p["pos"]) in special for p in mism)
 
 
+def unbound_special_param_names(rec):
+    """Names used in annotations of positional-only / keyword-only parameters of the result that nothing binds at MODULE
+    level (an import inside a function body does not count) - the other footprint of the recorded libcst finding."""
+    import builtins
+    try:
+        tree = ast.parse(rec.get("res_full") or rec.get("res", ""))
+    except SyntaxError:
+        return []
+    bound = set(dir(builtins))
+
+    def top(body):
+        for n in body:
+            if isinstance(n, (ast.Import, ast.ImportFrom)):
+                for a in n.names:
+                    if a.name == "*":
+                        try:
+                            m = importlib.import_module(n.module)
+                            bound.update(x for x in vars(m) if not x.startswith("_"))
+                        except Exception:
+                            pass
+                    else:
+                        bound.add((a.asname or a.name).split(".")[0])
+            elif isinstance(n, (ast.ClassDef, ast.FunctionDef, ast.AsyncFunctionDef)):
+                bound.add(n.name)
+            elif isinstance(n, ast.If):
+                top(n.body), top(n.orelse)
+            elif isinstance(n, ast.Try):
+                top(n.body), top(n.orelse), top(n.finalbody)
+                for h in n.handlers:
+                    top(h.body)
+            elif isinstance(n, ast.Assign):
+                bound.update(t.id for t in n.targets if isinstance(t, ast.Name))
+    top(tree.body)
+    special = set()
+    for n in ast.walk(tree):
+        if isinstance(n, (ast.FunctionDef, ast.AsyncFunctionDef)):
+            for a in n.args.posonlyargs + n.args.kwonlyargs:
+                if a.annotation is not None:
+                    special |= {x.id for x in ast.walk(a.annotation) if isinstance(x, ast.Name)}
+    return sorted(special - bound)
+
+
 def signature(clause, rec, case):
     sig = {"clause": clause, "confine": case["confine"]}
     if clause in ("AnnotationsPresent", "Idempotent", "Importable", "SameBehaviour"):
-        if only_special_params_mismatch(rec):
+        if only_special_params_mismatch(rec) or unbound_special_param_names(rec):
             sig["only_posonly_or_kwonly_annotations_not_imported_or_requalified"] = True
     gone = [i for i in rec["src_imports"] if not any(
         (j["kind"], j["module"], j["name"], j["alias"], j["block"]) == (i["kind"], i["module"], i["name"], i["alias"], i["block"])
